@@ -129,6 +129,31 @@ add("C20", "4/C20", E2,
     "exactly ValueError, and working/reference/original bytes-, dtype- and type-identical afterwards.",
     "only the listed classes are demanded; requests that the operation may legitimately honour are judged only by what a refusal leaves behind")
 
+SIZES = ("sizes from the size alphabet (every size up to a dense bound, 2^k+1, and the neighbourhood of every integer constant "
+         "found in the AST of the source under test)")
+LONG = {
+    "C01": "Long-input harness: samples per interval over " + SIZES + ", first fixed point at sample 0/1/5, reference on / off the grid; twin intervals of equal width and count with different layouts.",
+    "C02": "Long-input harness: (m, n) with oversampled length (m-1)n+1 just above 64..1024 and every integer constant of the numeric code.",
+    "C03": "Long-input harness: as C01 (long and twin intervals), judged by the displacement clauses.",
+    "C04": "Sampling functions also: constant level, scalar-only, one-point kernel smoothers returning float / 0-d.",
+    "C05": "Long-input harness: number of averages over " + SIZES + " on uniform / gap-cycling / late-gap grids, n in {2,5,12(,33)}.",
+    "C06": "Long-input harness: number of averages over " + SIZES + " on uniform / gap-cycling / late-gap grids, n in {2,5,12(,33)}.",
+    "C07": "Unit maps also with a large baseline (3e6, 2^22) and tiny units (2^-30, 1e-9), judged relative to the mapped variation. Long-input harness: locality at the interesting positions and unit maps for numbers of averages over " + SIZES + ".",
+    "C08": "Alphabet also: truncation bounds exactly on samples (unreshaped states), repeat 6 and 7.",
+    "C09": "Alphabet also: truncation bounds exactly on samples (unreshaped states), repeat 6 and 7.",
+    "C10": "Long-input harness: array lengths over " + SIZES + "; every element / midpoint / outside value as a single query, every pair of them (the second scan starts where the first ended), and all in one call.",
+    "C11": "Long-input harness: series lengths over " + SIZES + ", all pairs of bounds on / between the interesting samples; bounds one ulp below / above every sample and at its short decimal literal on inexact grids.",
+    "C12": "Long-input harness: every length 2..130(300), 2^k+1, code constants; r up to 17 (34).",
+    "C13": "Long-input harness: series lengths over " + SIZES + " and new grids with P points left of / R points beyond the data for P, R over the same alphabet.",
+    "C14": "Negative scale_x followed by normalize_x. Long-input harness: trend / shift / scale / normalise on lengths over " + SIZES + ".",
+    "C15": "Integer-typed signals (int64 up to 1e18, int32, int16, uint8 at counter magnitudes); non-stationary long signals at the seam with lengths around every integer constant of the code.",
+    "C16": "Long-input harness: lengths over " + SIZES + " (<= 1100 / 3300).",
+    "C17": "Long-input harness: average / oversample-average round trip / interval view on lengths across 64..1024 and every integer constant of the code, interval sizes 1..17, 31..33, 64.",
+    "C18": "History harness: all documented names, three passes, three orders, in one process and one data home (later passes: cached, no network, same data; returned arrays scribbled on).",
+    "C19": "Payload harness: plain / gzip / 2- and 3-member gzip payloads with sizes across 4 KiB..256 KiB(+1 MiB) and every integer constant of the loader's source; one changed byte in the first chunk, after each chunk boundary and in the last bytes must be refused and never cached.",
+    "C20": "Also: every function-level invalid call around long series (lengths over the size alphabet) and every invalid Weaver request in large states (recreate with n in 17..64 and code constants + 1, one more operation).",
+}
+
 ALL = ["C%02d" % i for i in range(1, 21)]
 NOT_BUILT = "check not built yet in this session (design in DESIGN.md section 4); will be claimed once its harness exists"
 
@@ -139,6 +164,8 @@ def main():
         if pid not in CHECKS:
             continue
         ref, tech, text, note = CHECKS[pid]
+        if pid in LONG:
+            text = text + " " + LONG[pid]
         if not os.path.exists(os.path.join(ROOT, "checks", pid.lower() + ".py")):
             continue
         checks.append({
